@@ -285,8 +285,8 @@ Proof.
   { intros sdx Hx sdy e E. unfold flag_misbehaviour in E. destruct (sd_misbehaved sdx); inversion E; subst; exact Hx. }
   destruct Hc as [[h [p [Hr Hcd]]]|[Hn Hcd]].
   - subst r. destruct (negb (listN_eqb h (expected key))) eqn:Hm.
-    + destruct (flag_misbehaviour _) as [sd2 e2] eqn:Hf. inversion H; subst. split; [|discriminate].
-      eapply Hflag; [|exact Hf]. intros k d0 h0 p0 El Ec. cbn in El. rewrite alookup_filter_key in El.
+    + inversion H; subst. split; [|discriminate].
+      intros k d0 h0 p0 El Ec. cbn in El. rewrite alookup_filter_key in El.
       destruct (k =? key); [discriminate|]. eapply Inv; eassumption.
     + apply negb_false_iff, listN_eqb_eq in Hm. subst h. inversion H; subst. split.
       * apply Hins. intros h0 p0 E. rewrite Hcd in E. inversion E; reflexivity.
